@@ -109,10 +109,11 @@ Fixpoint single_ok (s : sig) : bool :=
   | SStruct fs => (match fs with [] => false | _ => true end) && forallb single_ok fs
   | _ => true
   end.
-(* what a SIGNATURE-typed value may hold: any sequence of complete types, at most 255 bytes *)
-Definition sigval_ok (s : sig) : bool :=
+(* what a SIGNATURE-typed value may hold: any sequence of complete types whose WIRE text (without the outer
+   parentheses when np) is at most 255 bytes *)
+Definition sigval_ok (s : sig) (np : bool) : bool :=
   (match s with SUnit => true | SStruct fs => forallb single_ok fs && negb (Nat.eqb (length fs) 0) | _ => single_ok s end)
-  && (len (show s) <=? 255)%N.
+  && (len (if np then show_noparens s else show s) <=? 255)%N.
 
 Fixpoint wf (v : dval) : bool :=
   match v with
@@ -127,7 +128,7 @@ Fixpoint wf (v : dval) : bool :=
   | VF64 b => (b <? 18446744073709551616)%N
   | VStr s => str_ok s
   | VPath s => path_ok s && (len s <? 2 ^ 32)%N
-  | VSigv s np => sigval_ok s && (negb np || match s with SStruct (_ :: _ :: _) => true | _ => false end)
+  | VSigv s np => sigval_ok s np && (negb np || match s with SStruct (_ :: _ :: _) => true | _ => false end)
   | VFd _ => true
   | VVariant x => wf x && single_ok (vsig x) && (len (show (vsig x)) <=? 255)%N
   | VArray el l => single_ok el && forallb (fun x => wf x && sig_eqb (vsig x) el) l
